@@ -149,7 +149,8 @@ def judge(case, got, exp):
     base = g["base"]
     for i in range(1, r + 1):
         for j in range(1, c + 1):
-            if not same(float(base[i][j]), float(ref[i, j])):
+            # the C kernel associates the sums differently: same tolerance as the c.aff site
+            if not same(float(base[i][j]), float(ref[i, j]), 2e-15 if case["kind"] == "lc.c" else 4e-16):
                 return {"kind": "lc-matrix-differs-from-recurrence", "cell": [i, j]}
     used = set()
     for (k, minlen, restart), h in zip(case["ops"], g["hist"]):
